@@ -218,9 +218,41 @@ fn run_suite<S: ShortGroupSignatureScheme>(em: &mut Emitter, rng: &mut Rng, suit
             }
             schema_claims.push(ClaimSchema { claim_type: t, label: format!("c{}", i), print_friendly: false, validators });
         }
-        let cs = match CredentialSchema::new(Some("c15"), None, &[], &schema_claims) {
-            Ok(s) => s,
-            Err(_) => continue,
+        // half of the schemas go through the constructor, the others are decoded from their wire form
+        // (public fields + serde: an issuer can hold a schema `new` never saw, e.g. with two revocation claims)
+        let cs = match (if k % 2 == 0 { CredentialSchema::new(Some("c15"), None, &[], &schema_claims).ok() } else { None }) {
+            Some(s) => s,
+            None => {
+                let mut stand_in = schema_claims.clone();
+                let mut seen = false;
+                for c in stand_in.iter_mut() {
+                    if c.claim_type == ClaimType::Revocation {
+                        if seen {
+                            c.claim_type = ClaimType::Hashed;
+                        }
+                        seen = true;
+                    }
+                }
+                if !seen {
+                    stand_in[0].claim_type = ClaimType::Revocation;
+                }
+                let base = match CredentialSchema::new(Some("c15"), None, &[], &stand_in) {
+                    Ok(b) => b,
+                    Err(_) => continue,
+                };
+                let mut v = serde_json::to_value(&base).unwrap();
+                let want = serde_json::to_value(&schema_claims).unwrap();
+                for i in 0..schema_claims.len() {
+                    v["claims"][i]["claim_type"] = want[i]["claim_type"].clone();
+                }
+                match serde_json::from_str::<CredentialSchema>(&serde_json::to_string(&v).unwrap()) {
+                    Ok(s) => {
+                        em.count("schema:decoded-from-wire");
+                        s
+                    }
+                    Err(_) => continue,
+                }
+            }
         };
         let (_public, mut issuer) = Issuer::<S>::new(&cs);
         // revoke "rev-2" so that one identifier is known-revoked
